@@ -176,15 +176,66 @@ func runC06(c *Ctx, r *Report) {
 func c06Strings(c *Ctx, r *Report) {
 	_ = c.fit.TypesInfo
 	// encoder: length := len(str); if length > int(size)-1 { length = int(size)-1 }; bstr := make([]byte, size); copy(bstr, str[:length])
-	if fd := c.decl(c.fn(c.fit, "encodeString")); fd != nil {
-		var seq []string
-		for _, s := range fd.Body.List {
-			seq = append(seq, strings.ReplaceAll(stmtStr(c, s), " ", ""))
+	if fn := c.ssaFn(c.fn(c.fit, "encodeString")); fn != nil {
+		fd := c.decl(c.fn(c.fit, "encodeString"))
+		// on the function's path terms (names and spelling do not matter): every success path returns
+		// make([]byte, size) after exactly one copy into it of str[:h], where h is len(str) on the paths
+		// with len(str) <= int(size)-1 and int(size)-1 on the others (or min of the two)
+		o := symPaths(fn, nil, 1)
+		ok := o.why == ""
+		nSucc := 0
+		const lim = "(- (conv:int p1) 1)"
+		for _, p := range o.paths {
+			if len(p.rets) != 2 || p.rets[1] != "nil" {
+				continue
+			}
+			nSucc++
+			if p.rets[0] != "(make p1 p1)" && p.rets[0] != "(make (conv:int p1) (conv:int p1))" {
+				ok = false
+			}
+			buf := p.rets[0]
+			nCopy := 0
+			for _, cl := range p.calls {
+				if !strings.HasPrefix(cl, "(copy ") {
+					continue
+				}
+				nCopy++
+				parts := symSplit(cl[1 : len(cl)-1])
+				if len(parts) != 3 || parts[1] != buf {
+					ok = false
+					continue
+				}
+				over := false // the path has len(str) > size-1
+				known := false
+				for _, cnd := range p.conds {
+					switch cnd[2:] {
+					case "(> (len p0) " + lim + ")", "(< " + lim + " (len p0))":
+						over, known = cnd[0] == 'T', true
+					case "(<= (len p0) " + lim + ")", "(>= " + lim + " (len p0))":
+						over, known = cnd[0] == 'F', true
+					}
+				}
+				switch parts[2] {
+				case "(slice p0  (min (len p0) " + lim + "))", "(slice p0  (min " + lim + " (len p0)))":
+				case "(slice p0  " + lim + ")":
+					if !known || !over {
+						ok = false
+					}
+				case "(slice p0  (len p0))", "p0":
+					if !known || over {
+						ok = false
+					}
+				default:
+					ok = false
+				}
+			}
+			if nCopy != 1 {
+				ok = false
+			}
 		}
-		src := strings.Join(seq, ";")
-		src = strings.ReplaceAll(strings.ReplaceAll(src, "\n", ""), "\t", "")
-		ok := strings.Contains(src, "length:=len(str)") && strings.Contains(src, "iflength>int(size)-1{length=int(size)-1}") &&
-			strings.Contains(src, "bstr:=make([]byte,size)") && strings.Contains(src, "copy(bstr,str[:length])")
+		if nSucc == 0 {
+			ok = false
+		}
 		r.check(ok, "C06-R3-strings", "encodeString/clamp-and-terminate", c.pos(fd.Pos()), "at most size-1 bytes are copied into a zeroed buffer of size bytes: always NUL-terminated", "encodeString no longer clamps to size-1 bytes in a zeroed buffer: a string of exactly the field size would lose its terminator (or more is copied than fits)")
 	}
 	ok, why, pos := stringArm(c)
